@@ -61,10 +61,18 @@ func runC17(o *Out, rng *Rng, tier string, replay string) {
 	for c := 0; c < n; c++ {
 		r := rng.Fork()
 		cfg := engCfg{nTrav: r.Range(1, 8), days: r.Range(8, 40), promises: -1, strictDaily: true}
+		// every sixth history is cut into sessions, some ended cleanly and some killed (the counting must not
+		// depend on administrator state that a kill loses); these are judged by the harness's own tally only
+		cfg.kills = c%6 == 5
 		s := genEngine(r, wd, "C17", cfg)
 		keepFails(o, s, "C17")
 		engNote(o, s)
-		o.AddCase(List(s.coq), s.stat["c17_updates_with_flights"] >= 3 && s.stat["c17_updates_with_several_travellers"] > 0, s.ops)
+		if cfg.kills {
+			o.CountN("sessions_killed_without_saving", s.stat["kills"])
+			o.CountN("sessions_ended_cleanly", s.stat["restarts"])
+		} else {
+			o.AddCase(List(s.coq), s.stat["c17_updates_with_flights"] >= 3 && s.stat["c17_updates_with_several_travellers"] > 0, s.ops)
+		}
 		s.close()
 	}
 	engFlush(o, "C17")
@@ -102,10 +110,14 @@ func runC01(o *Out, rng *Rng, tier string, replay string) {
 		if c%5 == 4 {
 			cfg = engCfg{nTrav: r.Range(1, 2), days: r.Range(45, 70), promises: 0, bigLedger: true}
 		}
+		if c%3 == 1 {
+			cfg.faults = true // some check-ins meet a failing read or write of the travellers table
+		}
 		s := genEngine(r, wd, "C01", cfg)
 		keepFails(o, s, "C01")
 		engNote(o, s)
 		nt := s.stat["submits_accepted"] > 0 && s.stat["submits_refused_1"] > 0 && s.stat["updates_with_credit"] > 0
+		o.CountN("checkins_with_storage_fault", s.stat["checkins_with_storage_fault"])
 		o.AddCase(List(s.coq), nt, s.ops)
 		s.close()
 	}
@@ -127,11 +139,13 @@ func runC02(o *Out, rng *Rng, tier string, replay string) {
 		} else if c%6 == 2 || c%6 == 4 {
 			s = genC02Kept(r, wd, "C02") // check-ins around a kept promise's clearance second; trips stacked on a kept promise
 		} else {
+			cfg.faults = c%6 != 0 // check-ins of grounded travellers while the travellers table cannot be read (1-4 failing reads)
 			s = genEngine(r, wd, "C02", cfg)
 		}
 		keepFails(o, s, "C02")
 		engNote(o, s)
 		nt := s.stat["c02_grounded_cases"] > 0 && s.stat["c02_cleared_at_trip_start"] > 0
+		o.CountN("checkins_with_storage_fault", s.stat["checkins_with_storage_fault"])
 		o.AddCase(List(s.coq), nt, s.ops)
 		s.close()
 	}
